@@ -736,9 +736,9 @@ fn directed() -> Vec<(&'static str, usize, Vec<&'static str>)> {
     ]
 }
 
-/// Small scope, exhaustively: two replicas, up to three operations on one group from six (create on
+/// Small scope, exhaustively: two replicas, two or three operations on one group from six (create on
 /// either side under different names, description on either side, delete on either side), every choice
-/// of {nothing, repl 0→1, repl 1→0} after the first and after the second operation.
+/// of {nothing, repl 0→1, repl 1→0} after the first operation (6² × 3 + 6³ × 3 = 756 histories).
 fn exhaustive() -> Vec<Vec<Step>> {
     let alpha = ["on 0 create 5 c08na", "on 1 create 5 c08nb", "on 0 desc 5 d0", "on 1 desc 5 d1", "on 0 delete 5", "on 1 delete 5"];
     let slots = ["", "repl 0 1", "repl 1 0"];
@@ -750,11 +750,9 @@ fn exhaustive() -> Vec<Vec<Step>> {
                 two.retain(|x| !x.is_empty());
                 out.push(two.iter().map(|t| Step::parse(t)).collect());
                 for c in alpha {
-                    for s2 in slots {
-                        let mut three = vec![a, s1, b, s2, c];
-                        three.retain(|x| !x.is_empty());
-                        out.push(three.iter().map(|t| Step::parse(t)).collect());
-                    }
+                    let mut three = vec![a, s1, b, c];
+                    three.retain(|x| !x.is_empty());
+                    out.push(three.iter().map(|t| Step::parse(t)).collect());
                 }
             }
         }
@@ -923,8 +921,8 @@ fn main() {
             });
         }
     }
-    let n_two = args.cases(26, 520);
-    let n_three = args.cases(14, 280);
+    let n_two = args.cases(26, 360);
+    let n_three = args.cases(14, 200);
     // the exhaustive small scope: all of it in the thorough tier, a seed-dependent sample otherwise
     let exh_all = exhaustive();
     let exh: Vec<Vec<Step>> = if args.thorough() || args.budget > 1 {
